@@ -1,7 +1,7 @@
 (* Properties_C02.v — ONLY the property theorems for C02 (bounded work, bounded growth).
    Models: Model/LoopModel.v (control skeleton of the rule loop; insert budget), Model/PosModel.v (depth cut-off of finalise),
    Model/VmModel.v (operand stack; see Properties_C07.v for the interpreter theorems). *)
-From GR Require Import Base.Bytes Model.LoopModel Proofs.LoopProofs Gen.GenLoop Proofs.GenAgreeLoop.
+From GR Require Import Base.Bytes Model.LoopModel Proofs.LoopProofs Gen.GenLoop Proofs.GenAgreeLoop Model.SparseModel Proofs.SparseProofs.
 From Coq Require Import NArith ZArith.
 Local Open Scope N_scope.
 
@@ -43,3 +43,12 @@ Proof. vm_compute. split; [discriminate | reflexivity]. Qed.
 Theorem C02_constants_tied : GenLoop.growth_factor = LoopModel.growth_factor /\ 1 <= GenLoop.min_max_loop /\ GenLoop.depth_cutoff + 1 = 101.
 Proof. exact gen_loop_consts_agree. Qed.
 Print Assumptions C02_constants_tied.
+
+(* The glyph-attribute store (graphite2::sparse): whatever (key, value) pairs it was built from, operator[] reads inside its array
+   for EVERY 16-bit key — the branch-free arithmetic never indexes outside the chunk table plus the packed values. *)
+Theorem C02_sparse_lookup_in_bounds : forall ps s k, build ps = Some s -> lookup s k <> None.
+Proof. exact lookup_in_bounds. Qed.
+Print Assumptions C02_sparse_lookup_in_bounds.
+Theorem C02_sparse_chunk_tied : GenLoop.sparse_chunk_bits = SparseModel.CHUNK.
+Proof. exact gen_sparse_chunk_agrees. Qed.
+Print Assumptions C02_sparse_chunk_tied.
